@@ -193,7 +193,7 @@ def gen_cases(tier, seed):
     nc = 2 if tier == "quick" else 12
     for r in range(nc):
         for q in qs:
-            cases.append({"kind": "conditional", "variant": variants[(r + int(q * 7)) % 4], "dim": 1, "q": q, "n": int(rng.choice([20000, 100000])), "sub": int(rng.integers(1 << 31)), "cost": 6})
+            cases.append({"kind": "conditional", "variant": variants[(r + int(q * 7)) % 4], "dim": 1, "q": q, "n": int(rng.choice([20000, 100000])), "sub": int(rng.integers(1 << 31)), "cost": 6, "small_n": q in (0.05, 0.5, 0.95)})
         for q in (0.05, 0.5, 0.95, 0.999):
             cases.append({"kind": "conditional", "variant": variants[r % 4], "dim": 0, "q": q, "n": 20000, "sub": int(rng.integers(1 << 31)), "cost": 10})
     ni = 6 if tier == "quick" else 40
@@ -201,6 +201,7 @@ def gen_cases(tier, seed):
         cases.append(
             {
                 "kind": "iform",
+                "history": i % 2 == 1,
                 "variant": variants[i % 4],
                 "alpha": float(10 ** rng.uniform(-3, -1.3)) if tier == "quick" else float(10 ** rng.uniform(-4.5, -1.3)),
                 "n_points": int(rng.choice([6, 8, 12])),
@@ -434,6 +435,17 @@ def _conditional(case, ctx):
         pc = np.asarray(tm.conditional_cdf(xq, dim, given, random_state=seed + 2), float)
         ok_c = bool(np.all(np.abs(pc - Fx) <= e5 + 1e-6))
         ctx.check("c16.conditional-cdf", ok_c, "conditional_cdf is outside the Monte-Carlo band around the exact conditional cdf", None if ok_c else _truncated_law_mech(exact, Fx, pc, e5, smp), got=pc, exact=Fx, eps=e5, probe=_probe_summary(), **info)
+    # small requests (one Tz per sea state in a simulation loop): pooled independent calls of n = 1, 2, 4, 10 draws each
+    # must follow the same conditional law as one large call
+    if case.get("small_n") and D <= eps and dim == 1:
+        for n_small in (1, 2, 4, 10):
+            calls = 3000 // n_small
+            pool = np.concatenate([np.asarray(tm.conditional_sample(n_small, dim, g, random_state=seed + 100 + j), float) for j in range(calls)])
+            Dp = stats.ks_distance(pool, exact)
+            ep = stats.dkw_eps(len(pool))
+            mech_p = _support_mech(ref, dim, g, pool, exact) if Dp > ep else None
+            ctx.check("c16.conditional-sample", Dp <= ep + 1e-6, f"pooled conditional samples of {n_small} draw(s) per call do not follow the exact conditional law (KS {Dp:.4g} > DKW {ep:.4g})", mech_p, ks=Dp, eps=ep, n_per_call=n_small, calls=calls, **info)
+        ctx.cls("small-n-pooled", True)
     # batch calls: several conditioning values in ONE call, close to each other in absolute terms; every row has to
     # follow its own conditional law
     if D <= eps and dim == 1 and 0.04 <= q <= 0.96:
@@ -538,6 +550,13 @@ def _iform(case, ctx):
         # the first coordinate comes from marginal_icdf alone: it differs only if that Monte-Carlo sample is unseeded
         mech = "transformed-iform-first-variable-unseeded"
     ctx.check("c16.iform-reproducible", same, "transformed IFORM contour is not reproduced exactly although the model's random_state is set", mech, first=X[:2].tolist(), second=X2[:2].tolist(), **info)
+    # ... and whatever was evaluated on the model in between (the lazily cached unseeded sample behind empirical_cdf / .sample)
+    if case.get("history"):
+        with np.errstate(all="ignore"):
+            tm2.empirical_cdf(X[:2])
+        X3 = np.asarray(IFORMContour(tm2, alpha, n_points=npts).coordinates, float)
+        ctx.check("c16.iform-reproducible", np.array_equal(X, X3), "transformed IFORM contour (random_state set) changes after empirical_cdf() was evaluated on the same model", first=X[:2].tolist(), after_history=X3[:2].tolist(), **info)
+        ctx.cls("history", "empirical_cdf-between-two-seeded-contours")
     ctx.nontrivial = True
     ctx.sample = {"kind": "iform", **{k: v for k, v in info.items() if k != "spec"}, "first_point": X[0].tolist(), "n_marginal": n0}
 
